@@ -180,6 +180,102 @@ def check_post_order(idx: Index, rep: Report) -> None:
                 r.ok(nxt.fq + ":unregistered", f"{nxt.loc} `{unparse(c)}` keeps unregistered ops as possible terminators")
 
 
+def _entry_names(f, region: str) -> set[str]:
+    """Local names bound to the region's first block (`entry, *rest = region.blocks`, `entry = region.blocks[0]`)."""
+    out: set[str] = set()
+    for s in walk_local(f.node):
+        if isinstance(s, ast.Assign) and isinstance(s.targets[0], ast.Tuple) and unparse(s.value) == f"{region}.blocks" and s.targets[0].elts and isinstance(s.targets[0].elts[0], ast.Name):
+            out.add(s.targets[0].elts[0].id)
+        elif isinstance(s, ast.Assign) and isinstance(s.targets[0], ast.Name) and unparse(s.value) in (f"{region}.blocks[0]", f"{region}.first_block", f"{region}.block"):
+            out.add(s.targets[0].id)
+    return out
+
+
+def _reach_closure_set(f, cfg: CFG, name: str, entry_names: set[str]) -> str | None:
+    """Is local `name` the set of blocks reachable from the entry, built by the worklist closure idiom?
+
+        R = {entry}; W = [entry]
+        while W: x = W.pop(); for s in x.last_op.successors: if s not in R: R.add(s); W.append(s)
+
+    Returns a description when recognised, None when `name` is not such a set, raises AnalysisError when it
+    looks like one but a part of the idiom cannot be established (so nothing passes on the name alone)."""
+    fn = f.node
+    binds = [s for s in walk_local(fn) if isinstance(s, (ast.Assign, ast.AnnAssign)) and any(isinstance(t, ast.Name) and t.id == name for t in (s.targets if isinstance(s, ast.Assign) else [s.target]))]
+    if len(binds) != 1 or binds[0].value is None:
+        return None
+    init = unparse(binds[0].value)
+    seeds = {f"{{{e}}}" for e in entry_names} | {f"set([{e}])" for e in entry_names} | {f"set(({e},))" for e in entry_names}
+    if init not in seeds:
+        return None
+    muts = [c for c in calls_in(fn) if isinstance(c.func, ast.Attribute) and isinstance(c.func.value, ast.Name) and c.func.value.id == name]
+    aug = [s for s in walk_local(fn) if isinstance(s, ast.AugAssign) and isinstance(s.target, ast.Name) and s.target.id == name]
+    if aug or any(c.func.attr not in ("add", "copy", "__contains__") for c in muts):  # type: ignore[attr-defined]
+        raise AnalysisError(f"{f.fq}: reachability set `{name}` is modified by something other than `{name}.add(...)`")
+    adds = [c for c in muts if c.func.attr == "add"]  # type: ignore[attr-defined]
+    if not adds:
+        raise AnalysisError(f"{f.fq}: reachability set `{name}` is never grown")
+    wl_names: set[str] = set()
+    for c in adds:
+        if len(c.args) != 1 or not isinstance(c.args[0], ast.Name):
+            raise AnalysisError(f"{f.fq}: `{unparse(c)}` not recognised")
+        sv = c.args[0].id
+        loops = [w for w in walk_local(fn) if isinstance(w, ast.For) and unparse(w.target) == sv and any(x is c for x in ast.walk(w))]
+        if not loops:
+            raise AnalysisError(f"{f.fq}: `{unparse(c)}`: `{sv}` is not a loop variable")
+        loop = loops[-1]
+        it = loop.iter
+        if not (isinstance(it, ast.Attribute) and it.attr == "successors" and isinstance(it.value, ast.Attribute) and it.value.attr == "last_op" and isinstance(it.value.value, ast.Name)):
+            raise AnalysisError(f"{f.fq}: `{sv}` ranges over `{unparse(it)}`, not over `<block>.last_op.successors`")
+        xv = it.value.value.id
+        # the block whose successors are followed is popped from a worklist
+        xdefs = reaching_defs(cfg, xv, cfg.node_of(loop))
+        for nid, val in xdefs:
+            if not (isinstance(val, ast.Call) and isinstance(val.func, ast.Attribute) and val.func.attr in ("pop", "popleft") and isinstance(val.func.value, ast.Name)):
+                raise AnalysisError(f"{f.fq}: `{xv}` (whose successors feed `{name}`) is not popped from a worklist")
+            wl_names.add(val.func.value.id)
+        # guards of the add: only `s not in R`, `x.last_op is not None`, truthiness of the worklist
+        outer = [x for x in walk_local(fn) if isinstance(x, ast.While) and any(y is c for y in ast.walk(x))]
+        if not outer:
+            raise AnalysisError(f"{f.fq}: `{unparse(c)}` is not inside a worklist loop")
+        for t, pol in guard_facts(fn, c):
+            if not any(y is t for y in ast.walk(outer[0])):
+                continue  # conditions outside the closure loop guard the whole construction, not single blocks
+            tt = unparse(t)
+            okg = (
+                (isinstance(t, ast.Compare) and isinstance(t.ops[0], ast.NotIn) and pol and tt == f"{sv} not in {name}")
+                or (isinstance(t, ast.Compare) and isinstance(t.ops[0], ast.In) and not pol and tt == f"{sv} in {name}")
+                or (pol and tt in (f"{xv}.last_op is not None", f"{xv}.last_op"))
+                or ((not pol) and tt == f"{xv}.last_op is None")
+                or (pol and isinstance(t, ast.Name) and t.id in wl_names)
+                or (pol and tt in {f"len({w}) > 0" for w in wl_names} | {f"len({w}) != 0" for w in wl_names})
+            )
+            if not okg:
+                raise AnalysisError(f"{f.fq}: `{unparse(c)}` is additionally guarded by `{tt}`: the set may miss reachable blocks")
+        # the added block is pushed in the same statement list
+        pm_blocks = [blk for n in walk_local(fn) for fld in ("body", "orelse") if isinstance(blk := getattr(n, fld, None), list) and any(isinstance(st, ast.Expr) and st.value is c for st in blk)]
+        if not pm_blocks:
+            raise AnalysisError(f"{f.fq}: `{unparse(c)}` is not a statement")
+        pushed = any(isinstance(st, ast.Expr) and isinstance(st.value, ast.Call) and isinstance(st.value.func, ast.Attribute) and st.value.func.attr == "append" and isinstance(st.value.func.value, ast.Name) and st.value.func.value.id in wl_names and len(st.value.args) == 1 and unparse(st.value.args[0]) == sv for st in pm_blocks[0])
+        if not pushed:
+            raise AnalysisError(f"{f.fq}: `{sv}` is added to `{name}` but not pushed on the worklist: its successors are never followed")
+    if len(wl_names) != 1:
+        raise AnalysisError(f"{f.fq}: worklist of `{name}` not recognised")
+    w = next(iter(wl_names))
+    wb = [s for s in walk_local(fn) if isinstance(s, (ast.Assign, ast.AnnAssign)) and any(isinstance(t, ast.Name) and t.id == w for t in (s.targets if isinstance(s, ast.Assign) else [s.target]))]
+    winit = {f"[{e}]" for e in entry_names} | {f"deque([{e}])" for e in entry_names}
+    if len(wb) != 1 or wb[0].value is None or unparse(wb[0].value) not in winit:
+        raise AnalysisError(f"{f.fq}: worklist `{w}` is not initialised to [entry]")
+    # other pushes must push members of R (only the recognised ones exist)
+    for c in calls_in(fn):
+        if isinstance(c.func, ast.Attribute) and isinstance(c.func.value, ast.Name) and c.func.value.id == w and c.func.attr in ("append", "extend", "insert", "appendleft"):
+            if not (c.func.attr == "append" and len(c.args) == 1 and any(unparse(c.args[0]) == unparse(a.args[0]) for a in adds)):
+                raise AnalysisError(f"{f.fq}: `{unparse(c)}` pushes something that is not a newly reached block")
+    drains = [x for x in walk_local(fn) if isinstance(x, ast.While) and unparse(x.test) in (w, f"len({w}) > 0", f"len({w}) != 0")]
+    if not drains:
+        raise AnalysisError(f"{f.fq}: no `while {w}:` loop drains the worklist")
+    return f"{name} = closure of {{entry}} under last_op.successors (worklist {w})"
+
+
 def check_dominance(idx: Index, rep: Report) -> None:
     f = idx.func(DOM, "DominanceInfo.__init__")
     cfg = CFG(f.node)
@@ -197,14 +293,30 @@ def check_dominance(idx: Index, rep: Report) -> None:
             raise AnalysisError(f"{f.fq}: loop binding `{b}` not found")
         dom_txt = resolved_text(cfg, loops[-1].iter, cfg.node_of(loops[-1]))
         facts = guard_facts(f.node, c)
-        def reach_expr(t: str) -> bool:
-            return "PostOrderIterator(" in t or "reachable" in t.lower()
-        guarded = any(pol and isinstance(t, ast.Compare) and isinstance(t.ops[0], ast.In) and unparse(t.left) == b and reach_expr(resolved_text(cfg, t.comparators[0], cfg.node_of(t))) for t, pol in facts) or any((not pol) and isinstance(t, ast.Compare) and isinstance(t.ops[0], ast.NotIn) and unparse(t.left) == b and reach_expr(resolved_text(cfg, t.comparators[0], cfg.node_of(t))) for t, pol in facts)
-        if reach_expr(dom_txt) or guarded:
-            # a name merely called "reachable" must be built from a traversal
-            src = dom_txt if reach_expr(dom_txt) else "guard"
-            if "PostOrderIterator(" not in dom_txt and not guarded:
-                raise AnalysisError(f"{f.fq}: predecessor domain `{dom_txt}` looks like a reachability set but its construction is not recognised")
+        entry_names = _entry_names(f, region)
+
+        def reach_expr(e: ast.AST) -> str | None:
+            """`e` denotes exactly the blocks reachable from the entry: a post-order traversal from the entry
+            (possibly wrapped in set/list/tuple/frozenset) or a recognised closure set."""
+            t = resolved_text(cfg, e, cfg.node_of(e) if not isinstance(e, ast.Name) else None)
+            for wrap in ("set(", "frozenset(", "list(", "tuple("):
+                if t.startswith(wrap) and t.endswith(")"):
+                    t = t[len(wrap):-1]
+            if t in {f"PostOrderIterator({en})" for en in entry_names} | {f"PostOrderIterator({region}.blocks[0])", f"PostOrderIterator({region}.block)", f"PostOrderIterator({region}.first_block)"}:
+                return t
+            if isinstance(e, ast.Name):
+                return _reach_closure_set(f, cfg, e.id, entry_names | {f"{region}.blocks[0]", f"{region}.first_block"})
+            return None
+
+        src = reach_expr(loops[-1].iter)
+        if src is None:
+            for t, pol in facts:
+                if isinstance(t, ast.Compare) and len(t.ops) == 1 and unparse(t.left) == b and ((pol and isinstance(t.ops[0], ast.In)) or ((not pol) and isinstance(t.ops[0], ast.NotIn))):
+                    src = reach_expr(t.comparators[0])
+                    if src is not None:
+                        src = f"guard `{unparse(t)}` with {src}"
+                        break
+        if src is not None:
             r.ok(f.fq, f"{f.loc} predecessors collected from {src}")
         else:
             r.fail(f.fq, Finding("C24.R2", f.fq, "unreachable-preds", f"`pred[...].add({b})` runs for every `{b}` in `{dom_txt}`: an unreachable block branching to B removes the entry block from dom(B)", f"{f.module.relpath}:{c.lineno}"))
@@ -228,7 +340,7 @@ def check_dominance(idx: Index, rep: Report) -> None:
     else:
         r.fail(f.fq + ":others-init", Finding("C24.R3", f.fq, "others-init", "non-entry blocks must start from the set of all blocks (top of the lattice)", f.loc))
     # fixpoint loop
-    wl = [w for w in walk_local(f.node) if isinstance(w, ast.While)]
+    wl = [w for w in walk_local(f.node) if isinstance(w, ast.While) and any(isinstance(x, ast.Assign) and unparse(x.targets[0]).startswith("self._dominance[") for x in walk_local(w))]
     if len(wl) != 1 or not isinstance(wl[0].test, ast.Name):
         raise AnalysisError(f"{f.fq}: `while changed:` loop not recognised")
     flag = wl[0].test.id
